@@ -90,15 +90,19 @@ func (m *manager) get(key string) *item {
 	return it
 }
 
-// get raw data from storage or memory
-func (m *manager) getRaw(key string) []byte {
-	var raw []byte
-	if m.storage != nil {
-		raw, _ = m.storage.Get(key) //nolint:errcheck // TODO: Handle error here
-	} else {
-		raw, _ = m.memory.Get(key).([]byte) //nolint:errcheck // TODO: Handle error here
+// loadBody completes an item of an external storage with its body, which is stored
+// separately to avoid msgp serialization. It reports false when the storage fails:
+// the item must then not be served.
+func (m *manager) loadBody(key string, it *item) bool {
+	if m.storage == nil {
+		return true
 	}
-	return raw
+	raw, err := m.storage.Get(key + "_body")
+	if err != nil {
+		return false
+	}
+	it.body = raw
+	return true
 }
 
 // set data to storage or memory
